@@ -562,7 +562,8 @@ def _find_conflict(
             nodes = sorted(
                 [node_1, node_2]
                 + list(flatten(nodes for _, _, nodes in subconflicts)),
-                key=lambda n: n.loc,
+                # Nodes of documents parsed with `no_location` have no loc.
+                key=lambda n: n.loc or (-1, -1),
             )
             return response_name, reason, nodes
 
